@@ -36,16 +36,16 @@ def check(ctx):
     ctx.floor('layout dispatch tests', n, 7)
     tw = ctx.fold.get('rgxlib.twprge', 'twprge_regex')
     ms = ctx.fold.get('rgxlib.sec', 'multisec_regex')
-    _inc(ctx, 'RX-LANG', 'twprge_regex', F.TWPRGE_FULL, tw, 'full Twp/Rge spellings')
-    _inc(ctx, 'RX-LANG', 'twprge_regex', F.TWPRGE_CANON, tw, 'canonical T#N-R#W')
-    _inc(ctx, 'RX-LANG', 'multisec_regex', F.MULTISEC, ms, 'section words, lists and colon')
+    ctx.attempt(_inc, 'RX-LANG', 'twprge_regex', F.TWPRGE_FULL, tw, 'full Twp/Rge spellings')
+    ctx.attempt(_inc, 'RX-LANG', 'twprge_regex', F.TWPRGE_CANON, tw, 'canonical T#N-R#W')
+    ctx.attempt(_inc, 'RX-LANG', 'multisec_regex', F.MULTISEC, ms, 'section words, lists and colon')
     _inc(ctx, 'RX-LANG', 'pp_twprge_comma_remove', F.TWPRGE_FULL + r"[,;:]?[ ]?",
          ctx.fold.get('rgxlib.twprge', 'pp_twprge_comma_remove'), 'Twp/Rge + trailing comma')
     nn = ctx.fold.get('rgxlib.sec', 'no_num_sec_regex')
-    _inc(ctx, 'RX-LANG', 'no_num_sec_regex', F.SEC_WORD, nn, "the word 'Section' / abbreviations / symbol")
-    _pretty(ctx, tw, ms)
-    _word_tables(ctx)
-    _marker_walk(ctx)
+    ctx.attempt(_inc, 'RX-LANG', 'no_num_sec_regex', F.SEC_WORD, nn, "the word 'Section' / abbreviations / symbol")
+    ctx.attempt(_pretty, tw, ms)
+    ctx.attempt(_word_tables)
+    ctx.attempt(_marker_walk)
 
 
 def _pretty(ctx, tw, ms):
@@ -128,7 +128,7 @@ def word_tables(ctx):
 
 
 def _word_tables(ctx):
-    word_tables(ctx)
+    ctx.attempt(word_tables)
     sf = ctx.repo.func('SecFinder.findall_matching_sec')
     t = ' '.join(norm(s) for s in walk_local(sf.node) if isinstance(s, ast.stmt))
     ctx.check('text[:sec_mo.start()].rstrip().endswith(illegal)' in t, 'TBL',
